@@ -2,6 +2,7 @@ package main
 
 import (
 	"fmt"
+	"go/types"
 
 	"golang.org/x/tools/go/ssa"
 )
@@ -19,4 +20,30 @@ func debugPC(fn *ssa.Function) {
 			fmt.Println()
 		}
 	}
+}
+
+// debugConstIdx lists constant-index accesses on slices in functions reachable from ParseOptions.
+func debugConstIdx(l *Loaded) {
+	po := l.Fn("fzf", "ParseOptions")
+	seen := reachableFns(po)
+	n := 0
+	for fn := range seen {
+		if fn.Pkg != l.pkg("fzf") {
+			continue
+		}
+		eachInstr(fn, func(in ssa.Instruction) {
+			ia, ok := in.(*ssa.IndexAddr)
+			if !ok {
+				return
+			}
+			if _, ok := ia.X.Type().Underlying().(*types.Slice); !ok {
+				return
+			}
+			if k, isc := constIntVal(ia.Index); isc {
+				n++
+				fmt.Printf("%s %s [%d] of %s\n", l.pos(ia.Pos()), fn.Name(), k, describe(ia.X))
+			}
+		})
+	}
+	fmt.Println("total", n)
 }
